@@ -12,7 +12,8 @@ ID = 'C04'
 POISON_WORD = 0x7ff8000000000000   # NaN
 RULE = ('count matrices: all n=2 over {0..3}, all n=3 over {0,1,2} (T: + n=3 over {0,1,5}, n=4 binary off-diagonal with '
         'diagonal in {0,2}) with every row having outgoing counts x containers {ndarray,csr,csc,coo,lil,dok,dia,bsr}_matrix '
-        'x prior_counts {None,1,0.5} x calculate_eq_probs {T,F} x builders {normalize,transpose,mle (mle: strongly '
+        'x prior_counts {None,1,0.5} x calculate_eq_probs {T,F}; on every 3rd matrix additionally float64/int32 counts, '
+        'Fortran-ordered and transposed-view dense input, and a second call on the same caller object; x builders {normalize,transpose,mle (mle: strongly '
         'connected only, all containers on every 5th matrix; Q: normalize/transpose use all 8 containers on every 4th '
         'matrix and {ndarray,csr,lil} on the rest)}; state=(matrix,container,prior,eq,builder); '
         'non-trivial = strongly connected matrix with >=1 zero entry or asymmetry')
@@ -20,7 +21,7 @@ ASSUMPTIONS = ['tolerances: row sums 1e-12, detailed balance / stationarity 1e-9
                'stationarity asserted only for strongly connected inputs (unique stationary vector)',
                'scipy sparse *matrix* containers only (the property\'s list); sparse arrays are not in scope',
                'NEP-49 poison allocator fills fresh numpy buffers with NaN during the run']
-GUARDS = {'sparse_in': 1000, 'prior': 1000, 'strongly_connected': 1000, 'not_strongly_connected': 100,
+GUARDS = {'float_counts': 500, 'dense_layouts': 200, 'sparse_in': 1000, 'prior': 1000, 'strongly_connected': 1000, 'not_strongly_connected': 100,
           'mle_sparse': 100, 'eq_off': 1000}
 NSH = {'quick': 64, 'thorough': 256}
 CONTAINERS = ('ndarray', 'csr', 'csc', 'coo', 'lil', 'dok', 'dia', 'bsr')
@@ -51,10 +52,15 @@ def shards(tier, seed):
     return [(tier, i) for i in range(NSH[tier])]
 
 
-def wrap(C, cont):
+def wrap(C, cont, dtype='int64'):
+    C = np.array(C).astype(dtype)
     if cont == 'ndarray':
-        return np.array(C)
-    return getattr(sp, cont + '_matrix')(np.array(C))
+        return C
+    if cont == 'ndarrayF':
+        return np.asfortranarray(C)
+    if cont == 'ndarrayT':
+        return np.ascontiguousarray(C.T).T       # non-owning transposed view
+    return getattr(sp, cont + '_matrix')(C)
 
 
 def snap(M):
@@ -76,10 +82,10 @@ def check_case(case, ctx):
     n = len(C)
     ctx.ev()
     sc = mr.strongly_connected(C + (0 if prior is None else prior))
-    key = (C.tobytes(), n, cont, prior, eq, bname)
+    key = (C.tobytes(), n, cont, prior, eq, bname, case.get('dtype', 'int64'))
     ctx.state(key, nontrivial=bool(sc and ((C == 0).any() or not np.array_equal(C, C.T))))
     ctx.guard('strongly_connected' if sc else 'not_strongly_connected')
-    if cont != 'ndarray':
+    if not cont.startswith('ndarray'):
         ctx.guard('sparse_in')
         if bname == 'mle':
             ctx.guard('mle_sparse')
@@ -87,11 +93,15 @@ def check_case(case, ctx):
         ctx.guard('prior')
     if not eq:
         ctx.guard('eq_off')
-    M = wrap(C, cont)
+    M = wrap(C, cont, case.get('dtype', 'int64'))
     before = snap(M)
+    if case.get('dtype', 'int64') != 'int64':
+        ctx.guard('float_counts')
+    if cont in ('ndarrayF', 'ndarrayT'):
+        ctx.guard('dense_layouts')
     fn = getattr(builders, bname)
     tag = bname
-    ctag = 'sparse' if cont != 'ndarray' else 'dense'
+    ctag = 'sparse' if not cont.startswith('ndarray') else 'dense'
     try:
         Cout, T, pi = fn(M, prior_counts=prior, calculate_eq_probs=eq)
     except Exception as e:
@@ -99,9 +109,18 @@ def check_case(case, ctx):
         return
     if snap(M) != before:
         ctx.violation('%s:mutates_input:%s' % (tag, cont), case, 'caller matrix modified (%r)' % (case,))
+    # calling again with the very same caller object must give the same answer
+    if case.get('twice'):
+        try:
+            C2, T2_, pi2_ = fn(M, prior_counts=prior, calculate_eq_probs=eq)
+            if np.abs(mr.to_dense(T2_).astype(float) - mr.to_dense(T).astype(float)).max() > 0 or \
+                    np.abs(mr.to_dense(C2).astype(float) - mr.to_dense(Cout).astype(float)).max() > 0:
+                ctx.violation('%s:second_call_differs:%s' % (tag, cont), case, 'second call on the same matrix object gave a different result (%r)' % (case,))
+        except Exception as e:
+            ctx.violation('%s:second_call_raises:%s' % (tag, type(e).__name__), case, repr(e))
     # container type
     for name, out in (('T', T), ('C', Cout)):
-        ok = type(out) is type(M) or (prior is not None and cont != 'ndarray' and isinstance(out, np.ndarray)
+        ok = type(out) is type(M) or (prior is not None and not cont.startswith('ndarray') and isinstance(out, np.ndarray)
                                       and type(out) is np.ndarray)
         if not ok:
             ctx.violation('%s:container:%s:%s' % (tag, name, cont), case, 'output %s has type %s for input %s (prior=%r)' % (
@@ -197,6 +216,16 @@ def run_shard(sh, ctx):
                             continue
                         case = {'C': C.tolist(), 'container': cont, 'prior': prior, 'eq': eq, 'builder': bname}
                         check_case(case, ctx)
+            # float-valued counts (e.g. the output of a previous transpose), dense memory layouts, repeated use
+            if (j // NSH[tier]) % 3 == 0 and (bname != 'mle' or sc0):
+                for cont in ('ndarray', 'ndarrayF', 'ndarrayT', 'csr', 'csc', 'coo', 'lil'):
+                    if bname == 'mle' and cont not in ('ndarray', 'ndarrayF', 'csr'):
+                        continue
+                    for dtype in ('float64', 'int32') if cont in ('ndarray', 'csr', 'coo', 'lil') else ('float64',):
+                        for prior in (None, 1):
+                            case = {'C': C.tolist(), 'container': cont, 'prior': prior, 'eq': True, 'builder': bname,
+                                    'dtype': dtype, 'twice': True}
+                            check_case(case, ctx)
         if j % 499 == 0:
             ctx.sample(case)
 
